@@ -129,7 +129,7 @@ pub fn main(args: &[String]) -> i32 {
             let gr = g.regroup(&r);
             let w: Vec<String> = (0..2 + g.rng.below(4)).map(|_| g.small_word()).collect();
             (r, gr, w)
-        } else if case % 6 == 1 {
+        } else if case % 3 == 1 {
             // focused stream: edge rules (unequal input/output lengths, `$`, `%`) over the small inventory, followed by ordinary rules:
             // what an earlier rule leaves behind in the structure is what the later ones see only in the one-shot run
             let mut r: Vec<String> = (0..1 + g.rng.below(2)).map(|_| g.edge_rule()).collect();
@@ -401,7 +401,7 @@ fn c16(g: &mut Gen, st: &mut Stats, case: usize, groups: &[Vec<String>], words: 
                         let want_head = format!("Applied \"g{i}\":");
                         let r = render(after);
                         let want_body = format!("{before} => {r} ");
-                        if lines[2 * k] != want_head || (!phrase.contains(AMER) && lines[2 * k + 1].trim_end() != want_body.trim_end()) {
+                        if lines[2 * k] != want_head || (!phrase.contains(AMER) && lines[2 * k + 1].split_whitespace().collect::<Vec<_>>() != want_body.split_whitespace().collect::<Vec<_>>()) {
                             println!("FINDING c16-string case={case} groups={} phrase={:?} k={k} got={:?}/{:?} want={:?}/{:?}", escg(groups), phrase, lines[2 * k], lines[2 * k + 1], want_head, want_body);
                         }
                         before = r;
